@@ -20,13 +20,13 @@ from .. import extract
 def table_cache(repo):
     ann = extract.strip_comments(extract.read(repo, "analyzers_v2/ast_annotator.rs"))
     body = re.sub(r"\s+", "", extract.fn_body(ann, "annotate_doc"))
-    pub = "doc_info.write().unwrap().set_symbol_table(Some(st));"
+    pubs = re.findall(r"doc_info\.write\(\)\.unwrap\(\)\.set_symbol_table\(Some\((\w+)\)\);", body)
     walk = "self.walk_tree(&annotated_tree);"
-    if body.count(pub) != 1 or body.count(walk) != 1:
-        raise ValueError("annotate_doc: expected exactly one set_symbol_table(Some(st)) and one walk_tree call")
-    published_first = body.index(pub) < body.index(walk)
-    if "letst=self.root_symbol_table.unwrap_ref().clone();" not in body:
-        raise ValueError("annotate_doc: `st` is not the root symbol table")
+    if len(pubs) != 1 or body.count("set_symbol_table(") != 1 or body.count(walk) != 1:
+        raise ValueError("annotate_doc: expected exactly one set_symbol_table(Some(<name>)) and one walk_tree call")
+    published_first = body.index("set_symbol_table(Some(%s));" % pubs[0]) < body.index(walk)
+    if "let%s=self.root_symbol_table.unwrap_ref().clone();" % pubs[0] not in body:
+        raise ValueError("annotate_doc: `%s` is not the root symbol table" % pubs[0])
 
     sem = extract.strip_comments(extract.read(repo, "manager/semantic_analysis_service.rs"))
     fb = extract.fn_body(sem, "get_symbol_table_for_uri_def_only")
